@@ -17,7 +17,7 @@ RULE = ("(a) random programs x wild renderings (blank lines, comment lines, trai
         "raw line breaks inside quoted strings) x eol in {LF, CRLF, CR} x parser histories of 0-3 earlier texts; (b) every fault kind "
         "x random position in random valid EEMS models, via API and CLI; distinct by (eol, history kinds, node kinds) / (fault kind, "
         "command, parameter, spread)")
-REQUIRED_COUNTERS = ["tree_nodes_compared", "histories_with_reuse", "fault_linenos_checked", "cli_marker_lines_checked", "eems2_fault_linenos_checked", "runtime_fault_linenos_checked", "lineless_runtime_errors_checked", "cycle_error_linenos_checked", "cli_runs_on_a_path_used_before", "user_library_fault_linenos_checked", "reruns_after_a_runtime_fault", "repeated_argument_linenos_checked"]
+REQUIRED_COUNTERS = ["multi_line_syntax_faults", "cli_runs_on_files_with_bare_cr_line_ends", "tree_nodes_compared", "histories_with_reuse", "fault_linenos_checked", "cli_marker_lines_checked", "eems2_fault_linenos_checked", "runtime_fault_linenos_checked", "lineless_runtime_errors_checked", "cycle_error_linenos_checked", "cli_runs_on_a_path_used_before", "user_library_fault_linenos_checked", "reruns_after_a_runtime_fault", "repeated_argument_linenos_checked"]
 ASSUMPTIONS = ["the head 'Result = Command(' is kept on one line (the statement says where a node starts; the code reports the command-name token)",
                "for a fault inside a multi-line list both the argument's first line and the element's own line are accepted",
                "errors raised during execution with lineno None are not judged", "CR-only texts are generated without comments"]
@@ -67,6 +67,8 @@ def cases(ctx):
                 hist.append(["shifted", rng.choice(["\n", "\n\n\n", "# moved\n\n", "  \n"]).replace("\n", eol if eol != "mixed" else "\n") + text.lstrip("\r\n \t")])
             else:
                 hist.append(["same", text])
+        if i % 50 == 0:
+            yield {"kind": "syntaxline", "variant": i // 50 + ctx.shard, "rseed": rng.randrange(10 ** 9)}
         yield {"kind": "tree", "prog": prog, "text": text, "eol": {"\n": "lf", "\r\n": "crlf", "\r": "cr", "mixed": "mixed"}[eol], "history": hist}
     for i in range(ctx.n(60, 3000)):
         yield {"kind": "runtime", "fault": sorted(RUNTIME)[i % len(RUNTIME)], "rseed": rng.randrange(10 ** 9)}
@@ -263,6 +265,11 @@ def run_fault(ctx, case):
 _cli_calls = {"n": 0, "dir": None}
 
 
+def _no_multiline_strings(text):
+    """True when no quoted string of the text spans a line break (quotes balance on every line)."""
+    return all(ln.count('"') % 2 == 0 and ln.count("'") % 2 == 0 for ln in text.split("\n"))
+
+
 def _check_cli(ctx, model, text, ok_lines, exp):
     """The line the command-line tool marks with '-->' must be (the text of) the offending command's / argument's line."""
     from click.testing import CliRunner
@@ -283,8 +290,18 @@ def _check_cli(ctx, model, text, ok_lines, exp):
         d = ctx.scratch()   # fresh directory: the API run above may have left files behind
     models.write_table(model["table"], d)
     path = os.path.join(d, "model.mpt")
+    file_text = text
+    if _cli_calls["n"] % 3 == 0 and "#" not in text and "\r" not in text and _no_multiline_strings(text):
+        # the same file with classic-Mac line ends (bare CR), everywhere or only in a pasted block: every CR is one line break
+        out, whole = [], _cli_calls["n"] % 2 == 0
+        parts = text.split("\n")
+        for i_, seg in enumerate(parts[:-1]):
+            nxt = parts[i_ + 1]
+            out.append(seg + ("\r" if (whole or i_ < len(parts) // 2) and nxt != "" else "\n"))
+        file_text = "".join(out) + parts[-1]
+        ctx.count("cli_runs_on_files_with_bare_cr_line_ends")
     with open(path, "w", encoding="utf-8", newline="") as f:
-        f.write(text)
+        f.write(file_text)
     try:
         res = CliRunner(mix_stderr=False).invoke(main, ["eems-csv", path])
     except TypeError:
@@ -658,7 +675,69 @@ def run_dupline(ctx, case):
                {"fault": "identical-lines-%d" % case["variant"]})
 
 
+def run_syntaxline(ctx, case):
+    """Malformed text whose offending token spans several lines (a quoted string with raw line breaks in front of which a comma
+    or colon is missing): a syntax error that names a line names the line on which the token it reports starts, and so does
+    the command-line tool if it marks one."""
+    import re
+    from mpilot.program import Program
+    rng = random.Random(case["rseed"])
+    body = "\n".join(rng.choice(["first part", "second, part", "x = y", "# not a comment", "", "  indented", "ends here"]) for _ in range(rng.randint(2, 5)))
+    q = rng.choice(['"', "'"])
+    lead = "".join(rng.choice(["\n", "# a comment\n", "   \n"]) for _ in range(rng.randint(0, 3)))
+    read = 'A = EEMSRead(InFileName = "in.csv", InFieldName = X0)\n'
+    variants = [
+        'B = Copy(\n    InFieldName = A,\n    Metadata = [Desc: ok, Note\n    %s%s%s],\n)\n' % (q, body, q),            # colon missing
+        'B = Copy(\n    InFieldName = A,\n    Metadata = [Desc: ok\n      Note: %s%s%s]\n)\n' % (q, body, q),                 # comma missing
+        'B = PrintVars(InFieldNames = [A], OutFileName\n %s%s%s)\n' % (q, body, q),                                             # '=' missing
+        'B = Copy(InFieldName = A, Metadata = [Desc: %s%s%s %s%s%s])\n' % (q, "a" + body, q, q, body, q),                        # two strings in a row
+        'B = Copy(InFieldName = A)\n%s%s%s\nC = Copy(InFieldName = B)\n' % (q, body, q),                                       # a stray string between commands
+    ]
+    text = lead + read + variants[case["variant"] % len(variants)] + "D = Copy(InFieldName = A)\n"
+    ctx.count("multi_line_syntax_faults")
+    ctx.feature(("syntaxline", case["variant"] % len(variants), body.count("\n"), len(lead)))
+    err = None
+    try:
+        Program.from_source(text)
+    except Exception as e:
+        err = e
+    if not isinstance(err, SyntaxError):
+        ctx.dontcare("malformed text not reported as a syntax error (%s): judged by C10/C13" % type(err).__name__)
+        return
+    m = re.search(r"at position (\d+)", str(err))
+    got = getattr(err, "lineno", None)
+    true_line = text[:int(m.group(1))].count("\n") + 1 if m else None
+    if got is not None and true_line is not None:
+        ctx.count("fault_linenos_checked")
+        if got != true_line:
+            ctx.fail("syntax-error:names-a-line-that-is-not-where-the-reported-token-starts", {"lineno": got, "line_of_reported_position": true_line, "message": str(err)[:120], "text": text[:500]})
+            return
+    # the tool: either it marks nothing (it does not handle syntax errors) or it marks the line the token starts on
+    from click.testing import CliRunner
+    from mpilot.cli.mpilot import main
+    d = ctx.scratch()
+    with open(os.path.join(d, "in.csv"), "w") as f:
+        f.write("X0\n1\n2\n")
+    path = os.path.join(d, "model.mpt")
+    with open(path, "w", encoding="utf-8", newline="") as f:
+        f.write(text)
+    try:
+        res = CliRunner(mix_stderr=False).invoke(main, ["eems-csv", path])
+    except TypeError:
+        res = CliRunner().invoke(main, ["eems-csv", path])
+    try:
+        stderr = res.stderr
+    except Exception:
+        stderr = res.output
+    marks = [ln for ln in stderr.split("\n") if ln.startswith("--> ")]
+    ctx.count("cli_marker_lines_checked")
+    if marks and true_line is not None and marks[0][4:] != text.split("\n")[true_line - 1]:
+        ctx.fail("cli:syntax-error:marker-on-wrong-line", {"marked": marks[0][:100], "line_of_reported_position": true_line, "source_line": text.split("\n")[true_line - 1][:100]})
+
+
 def run_case(ctx, case):
+    if case["kind"] == "syntaxline":
+        return run_syntaxline(ctx, case)
     if case["kind"] == "tree":
         return run_tree(ctx, case)
     if case["kind"] == "runtime":
